@@ -43,7 +43,7 @@ Err(j) ==
         got == TableOf(j.genes)
         single == AllParentsOf(R) \ ChoiceParents(R)
     IN IF errs # {} /\ j.outcome = "ok" THEN 810
-       ELSE IF errs = {} /\ j.outcome = "error" /\ ~MayFail(R, tb, qg) THEN 811
+       ELSE IF errs = {} /\ j.outcome = "error" /\ ~MayFail(R, tb, qg) /\ ~MayFail0(R, tb, qg, j.minm) THEN 811
        ELSE IF j.outcome = "error" THEN 0
        ELSE IF ~(\A p \in DOMAIN rec : p \in DOMAIN got /\ got[p] = rec[p]) THEN 812
        ELSE IF ~(\A p \in (DOMAIN got) \cap single : p = Root \/ got[p] = {}) THEN 813
